@@ -274,7 +274,7 @@ func c06Body(faulty bool) func(rc *RunCtx) {
 		simrt.OnReset(func() { client.Destroy() })
 		// manual drain: the application stops the background goroutine through its own context
 		// and drains the queue itself with the public SendAndClear() (one batch, one flush)
-		if !faulty && d.Queue && appCancel != nil && simrt.ChanceF(1, 3) {
+		if d.Queue && appCancel != nil && simrt.ChanceF(1, 3) {
 			d.ManualDrain = true
 			simrt.Probe("manual_drain_send_and_clear")
 			appCancel()
@@ -448,8 +448,14 @@ func c06Body(faulty bool) func(rc *RunCtx) {
 		}
 		if d.ManualDrain {
 			simrt.Note("application calls SendAndClear()")
-			if err := client.SendAndClear(); err != nil {
+			// (on a faulty network a drain may fail part-way; the application tries again)
+			for try := 0; try < 3; try++ {
+				err := client.SendAndClear()
+				if err == nil {
+					break
+				}
 				d.DrainErr = err.Error()
+				simrt.Sleep(200 * time.Millisecond)
 			}
 		}
 		if !faulty && !d.Queue && simrt.ChanceF(1, 3) {
